@@ -63,16 +63,25 @@ def confirm(src, seed_id, prop, needs):
 
 
 def run(seed_id, props):
+    """TRY_WT=<scratch worktree of /repo> applies the change there instead of /repo (the checks honour YNCA_REPO);
+    TRY_VERIF=<copy of /verif> runs the checks of that copy; the results are recorded in this tree's seeded/ either way"""
+    global REPO
     dst = os.path.join(VERIF, "seeded", seed_id)
+    REPO = os.environ.get("TRY_WT", REPO)
+    run_dir = os.environ.get("TRY_VERIF", VERIF)
+    if REPO != "/repo":
+        sh(f"git -C {REPO} reset -q --hard HEAD")
     st = sh(f"git -C {REPO} status --porcelain").stdout.strip()
-    assert st == "", "/repo not clean: " + st
+    assert st == "", f"{REPO} not clean: " + st
     ap = sh(f"git -C {REPO} apply {dst}/patch.diff")
+    if ap.returncode != 0 and REPO != "/repo":
+        ap = sh(f"git -C {REPO} apply --3way {dst}/patch.diff")  # a patch made before a later fix of a neighbouring line
     assert ap.returncode == 0, ap.stderr
     results = {}
     try:
         for p in props:
             t0 = time.time()
-            r = sh(f"cd {VERIF} && ./check {p} --tier quick")
+            r = sh(f"cd {run_dir} && YNCA_REPO={REPO} ./check {p} --tier quick")
             lines = [l for l in r.stdout.splitlines() if l.startswith(("VIOLATION", "KNOWN-FINDING", "["))]
             results[p] = {"exit": r.returncode, "lines": lines[:6], "wall_s": round(time.time() - t0, 1)}
             print(p, "exit", r.returncode, *lines[:3], sep="\n   ")
@@ -88,10 +97,12 @@ def run(seed_id, props):
                             pass
                     break
     finally:
-        sh(f"git -C {REPO} checkout -- .")
-        sh(f"rm -f {VERIF}/replays/*")
+        sh(f"git -C {REPO} checkout -- ." if REPO == "/repo" else f"git -C {REPO} reset -q --hard HEAD")
+        sh(f"rm -f {run_dir}/replays/*")
     mp = os.path.join(dst, "meta.json")
     meta = json.load(open(mp)) if os.path.exists(mp) else {}
+    for r in results.values():
+        r["lines"] = [l.replace(run_dir, VERIF) for l in r["lines"]]
     meta.setdefault("checks_run_against_it", {}).update(results)
     json.dump(meta, open(mp, "w"), indent=1)
     # restore evidence + generated tables for the unchanged tree
